@@ -98,9 +98,9 @@ def corrupt_dict(rng, d):
     if k == 0:
         d.pop(rng.choice(['objects', 'properties', 'context']), None)
     elif k == 1 and d.get('objects'):
-        l = list(d['objects']); l[rng.randrange(len(l))] = rng.choice([1, None, 2.5, ('a',)]); d['objects'] = l
+        l = list(d['objects']); l[rng.randrange(len(l))] = rng.choice([1, None, 2.5, ('a',), ['a'], {'a': 1}]); d['objects'] = l
     elif k == 2 and d.get('properties'):
-        l = list(d['properties']); l[rng.randrange(len(l))] = rng.choice([0, None, b'p']); d['properties'] = l
+        l = list(d['properties']); l[rng.randrange(len(l))] = rng.choice([0, None, b'p', ['p'], set()]); d['properties'] = l
     elif k == 3 and ctxrows:
         l = list(ctxrows); del l[rng.randrange(len(l))]; d['context'] = l
     elif k == 4 and ctxrows is not None:
